@@ -811,7 +811,8 @@ func (p *simPeer) announce(r *annRoute) bool {
 	sess := p.sess
 	msg := p.buildAnnounce(r)
 	p.mu.Unlock()
-	r.At = p.w.now()
+	// arrival instant at gobgp: hand-over to the transport plus the configured one-way latency
+	r.At = p.w.now() + time.Duration(p.w.sc.Net.LatencyMs)*time.Millisecond
 	if _, err := c.Write(msg); err != nil {
 		return false
 	}
